@@ -1,6 +1,6 @@
 --------------------------- MODULE ConfResolveImplGen ---------------------------
-(* One line per root with the exact result the implementation-shaped model predicts (Fixed = TRUE / FALSE),
+(* One line per root and design (fx) with the exact result the implementation-shaped model predicts,
    used to detect model drift and to attach the known-defect predicate (kd) to a root. *)
 EXTENDS ConfResolveImpl, Json
-EmitImpl == phase = "done" => PrintT(<<"BEH", ToJson([r |-> root.s, d |-> root.def, tb |-> root.tab, w |-> wrap, o |-> cur, kd |-> kd])>>)
+EmitImpl == phase = "done" => PrintT(<<"BEH", ToJson([r |-> root.s, d |-> root.def, tb |-> root.tab, w |-> wrap, o |-> cur, kd |-> kd, fx |-> fx])>>)
 =============================================================================
